@@ -37,7 +37,7 @@ def history(rng, n):
         cthr = cs["delegations"]["root"]["threshold"]
         v = cs["version"]
         kind = rng.choice(["honest", "honest", "honest", "rotate", "rotate", "replay", "rollback", "skip", "revoked", "insufficient",
-                           "self-appointed", "raw-sigs", "same-version", "junk", "honest-extra-junk", "superset-self-appointed", "superset-self-appointed", "odd-version"])
+                           "self-appointed", "raw-sigs", "same-version", "junk", "honest-extra-junk", "superset-self-appointed", "superset-self-appointed", "odd-version", "stolen-signatures"])
         if kind in ("honest", "honest-extra-junk"):
             o = signed_root(rng, ckeys, rng.randint(1, len(ckeys)), v + 1, rng.sample(ckeys, cthr))
             if kind == "honest-extra-junk":
@@ -69,6 +69,13 @@ def history(rng, n):
             o = signed_root(rng, nk, max(1, min(cthr, len(signers))), v + 1, signers)
         elif kind == "raw-sigs":
             o = signed_root(rng, ckeys, cthr, v + 1, ckeys, gpg=False)
+        elif kind == "stolen-signatures":
+            # the signature entries of an update the client accepted earlier, attached to a different payload (self-appointed keys, next version)
+            donor = rng.choice(accepted)
+            nk = [gen.key(i) for i in (8, 9)]
+            o = gen.envelope(gen.root_md(nk, 1, [gen.key(9)], 1, version=v + 1))
+            o["signatures"] = copy.deepcopy(donor["signatures"]) if isinstance(donor.get("signatures"), dict) else {}
+            gen.sign_env(o, nk, True, rng)
         elif kind == "odd-version":
             # versions that are not integers, or floats at the edge of exactness (2**53 + 1 == 2**53 as a float): properly signed, never acceptable
             o = signed_root(rng, ckeys, cthr, rng.choice([float(v + 1), float(2**53), v + 1.5, str(v + 1), True, None, float("inf")]), ckeys)
